@@ -455,4 +455,3 @@ func receivedFrom(f *an.Fn, v, ch types.Object) bool {
 	})
 	return found
 }
-
